@@ -318,7 +318,24 @@ impl Executor<'_> {
                     // reference graph model
                     if check_c09 && matches!(query, Query::Graph | Query::Analyze) {
                         let reference = Reference::new(&model, *root);
-                        let graph_answer = session.graph(&s_root);
+                        // a load that panics is neither a graph nor a cycle report
+                        let graph_answer = match catch_unwind(AssertUnwindSafe(|| session.graph(&s_root))) {
+                            | Ok(answer) => answer,
+                            | Err(payload) => {
+                                let message = zysim_common::panic_message(&*payload);
+                                event["violation"] = json!("C09");
+                                record.violations.push(Violation {
+                                    property: "C09",
+                                    class: "C09:panic".into(),
+                                    step,
+                                    message: format!("loading the graph of {} panicked", SLOTS[*root]),
+                                    expected: format!("{reference:?}"),
+                                    actual: format!("PANIC {message}"),
+                                });
+                                record.events.push(event);
+                                break;
+                            }
+                        };
                         record.stats.graph_judgements += 1;
                         Stats::bump(
                             &mut record.stats.probes,
